@@ -75,7 +75,8 @@ def generate(rng, tier):
                   0x1000, bytes([0x90]) * 0x200)
         # a PE image whose function table is EMPTY (nothing but leaf functions): it is still a PE image
         pe0_lo = 0x480000
-        module_pe(s, "MP0", pe0_lo, pe0_lo + 0x10000, pe0_lo, 0x140000000, [], {}, 0x1000, bytes([0x90]) * 0x100)
+        # (every other time without any .xdata / .rdata section: the function table alone makes it a PE image)
+        module_pe(s, "MP0", pe0_lo, pe0_lo + 0x10000, pe0_lo, 0x140000000, [], {}, 0x1000, bytes([0x90]) * 0x100, no_xdata=(rep % 4 < 2))
         # a Mach-O module: addresses its __unwind_info does not cover (before the first entry, after the sentinel)
         import machotruth as mt
         mprog = mt.make_program(rng, arch, 4)
@@ -185,7 +186,13 @@ def generate(rng, tier):
             s.module_dwarf("MH%d" % hi, lo, lo + 0x1000, lo, 0, "hdr", fd, rng, hdr_enc=hdr_enc, hdr_extra=extra)
             probes += [("hdr-nofde", lo + a) for a in (0x200, 0x210, 0x23f, 0x240, 0x2ff, 0x400, 0x800)]
             probes += [("gap-hdr", lo + a) for a in (0x140, 0x1ff, 0x340)]         # control: real FDEs still decide their gaps
-        s.add("new U"); s.add("add U MH0"); s.add("add U MH1")
+        # a header WITHOUT search table (count and table encodings omitted): nothing can be looked up through it, every
+        # address of the image is without usable unwind information
+        lo = 0x620000
+        fd = [dict(start=0x100, len=0x40, rows=[(0, suites.std_row(arch, "frameless", 3))])]
+        s.module_dwarf("MH2", lo, lo + 0x1000, lo, 0, "hdr", fd, rng, hdr_enc="notable")
+        probes += [("hdr-notable", lo + a) for a in (0x100, 0x120, 0x13f, 0x140, 0x800)]
+        s.add("new U"); s.add("add U MH0"); s.add("add U MH1"); s.add("add U MH2")
         for reason, a in probes:
             for first in (1, 0):
                 for _ in range(2):
